@@ -228,6 +228,48 @@ class _LiteralWriting:
                             found.append((n, writer, ok))
                     yield mod, q, f, t, found
 
+    def dispatch_sites(self):
+        """(mod, qual, dispatcher def, [(class expression, implementation (module, def), registration node, [(rendering, writer or None, in order)], in order)] or None)
+        for every function of the serializer modules that chooses its implementation by the class of its first argument (functools.singledispatch): the other way
+        of knowing a term to be a Literal.  Inside an implementation registered for Literal (or a subclass of it) the first parameter is the literal; the registration
+        is in order if that parameter is never rebound, is handed to a function every return of which carries the escaped, quoted form (or is escaped and quoted on the
+        spot), and every return of the implementation carries that form."""
+        H = self.H
+        try:
+            lit_subs = {x.rsplit(".", 1)[-1] for x in self.repo.typed().subclasses("rdflib.term.Literal")}
+        except Exception:  # no typed facts: only the class itself is recognised
+            lit_subs = set()
+        lit_subs.add("Literal")
+        for mod in self.mods:
+            for q, f in _top_functions(mod):
+                if "." in q or not H.is_type_dispatcher(mod, f):
+                    continue
+                regs = H.type_registrations(self.repo, self.mods, mod, f)
+                if regs is None:
+                    yield mod, q, f, None
+                    continue
+                out = []
+                for rmod, cls, (im, g), node in regs:
+                    if norm(cls).split(".")[-1] not in lit_subs:
+                        continue
+                    ps = H.params(g)
+                    found = []
+                    if ps and not any(isinstance(x, ast.Name) and x.id == ps[0] and isinstance(x.ctx, (ast.Store, ast.Del)) for x in own_nodes(g, include_nested=True)):
+                        for n in own_nodes(g, include_nested=True):
+                            if isinstance(n, ast.Call) and any(norm(a) == ps[0] for a in n.args):
+                                r = self.callee(im, g, n)
+                                if r is not None:
+                                    found.append((n, r, self.yields_quoted(r[0], r[1])))
+                                continue
+                            em = self.quoted_escape(im, g, n)
+                            root = em.root if em is not None else None
+                            if isinstance(root, ast.Call) and isinstance(root.func, ast.Name) and root.func.id == "str" and len(root.args) == 1:
+                                root = root.args[0]
+                            if root is not None and norm(root) == ps[0]:
+                                found.append((n, None, True))
+                    out.append((cls, (im, g), node, found, any(o for _, _, o in found) and self.yields_quoted(im, g)))
+                yield mod, q, f, out
+
     def reaches(self, mod, fn, good: set, depth: int = 0, seen: set | None = None) -> bool:
         """fn, or a function of the serializer modules it calls, is one of `good`"""
         seen = seen if seen is not None else set()
@@ -289,6 +331,24 @@ def nt_output_rules(repo: Repo, rep: Report) -> None:
         rep.ob(R, mod, q, "%s: the literal is written by %s" % (norm(t), sorted({norm(n.func) if w is not None else "an escape on the spot" for n, w, _ in found}) or "nothing that quotes it"), ok,
                "escaped and quoted" if ok else "where %s is a Literal it is not handed to a function every return of which carries the escaped, quoted lexical form: the row is not valid N-Triples for "
                "a literal containing \" \\ LF or CR (or is written in Turtle shorthand)" % norm(t.args[0]), node=t)
+    for mod, q, f, regs in lw.dispatch_sites():
+        rep.analysed("%s:%s" % (mod.rel, q))
+        if regs is None:
+            rep.ob(R, mod, q, "%s chooses its implementation by the class of its argument" % q, False,
+                   "the implementations registered with %s cannot be read off the source: what is run for a Literal is unknown" % q, node=f)
+            continue
+        for cls, (im, g), node, found, ok in regs:
+            rep.analysed("%s:%s" % (im.rel, im.qual_of(g)))
+            for _, w, o in found:
+                if w is not None:
+                    writers.setdefault(id(w[1]), (w, o))
+            rep.ob(R, im, im.qual_of(g), "run by %s for a %s: the literal is written by %s" % (q, norm(cls), sorted({norm(n.func) if w is not None else "an escape on the spot" for n, w, _ in found}) or "nothing that quotes it"), ok,
+                   "escaped and quoted" if ok else "the implementation that %s runs for a %s does not return its argument escaped and quoted by a function every return of which carries the escaped, quoted "
+                   "lexical form: the row is not valid N-Triples for a literal containing \" \\ LF or CR (or is written in Turtle shorthand)" % (q, norm(cls)), node=node)
+        # a call of the dispatcher with a Literal runs one of these implementations: the dispatcher is a place where a Literal is escaped and quoted
+        # if there is an implementation for Literal and all those for Literal and its subclasses are in order
+        if regs and all(ok for *_, ok in regs) and any(norm(cls).split(".")[-1] == "Literal" for cls, *_ in regs):
+            good_fns.add(id(f))
     for (wm, wf), o in writers.values():
         rep.analysed("%s:%s" % (wm.rel, wm.qual_of(wf)))
         rep.ob(R, wm, wm.qual_of(wf), "every return carries the escaped, quoted lexical form", o, "" if o else "a return of %s bypasses the escape" % wf.name, node=wf)
@@ -1269,9 +1329,12 @@ def string_resolver_rules(repo: Repo, rep: Report) -> None:
         for r in own_nodes(f):
             if not isinstance(r, ast.Return) or r.value is None:
                 continue
-            if isinstance(r.value, ast.BinOp) and isinstance(r.value.op, ast.Add):
+            # a return that puts the result together: a `+` chain, or (the same thing written elsewhere) a call of a function / a constructor of the module,
+            # a join of pieces, an f-string - judged on the pieces the text is assembled from, wherever in the module the assembly is written
+            pieces = [] if isinstance(r.value, ast.Name) else H.string_pieces(m, f, r.value)
+            if (isinstance(r.value, ast.BinOp) and isinstance(r.value.op, ast.Add)) or len(pieces) > 1:
                 n += 1
-                leaves = H.add_leaves(r.value)
+                leaves = H.add_leaves(r.value) + [x for x in pieces if x.__class__ is ast.Name and m.qual_of(x) == m.qual_of(r)]
                 whole = [x for x in leaves if isinstance(x, ast.Name) and x.id == base_p]
                 rep.ob(R, m, q, "return %s" % canon(r.value)[:100], not whole, "assembled from components" if not whole else
                        "the result is the whole base string plus %s: the base's fragment / query stay in the result (<#x> against <http://a/b#c> gives <http://a/b#c#x>)"
@@ -1282,7 +1345,7 @@ def string_resolver_rules(repo: Repo, rep: Report) -> None:
                     continue
                 n += 1
                 ev: set = set()
-                for e in H.closure_exprs(f, guard.test):
+                for e in H.deep_closure_exprs(m, f, guard.test):
                     for c in ast.walk(e):
                         if isinstance(c, ast.Call) and isinstance(c.func, ast.Attribute) and c.func.attr in ("find", "index", "rfind", "split", "partition") and c.args:
                             s = H.const_str(repo, m, c.args[0])
